@@ -523,6 +523,7 @@ def follow_binding(fn, let, pm, chain):
         return Consumer("unclassified", "binding outside a block", let, chain)
     after = False
     verdicts = []
+    selected = None
     for s in blk["stmts"] + ([blk["e"]] if blk.get("e") else []):
         if s is let:
             after = True
@@ -540,6 +541,21 @@ def follow_binding(fn, let, pm, chain):
                         return Consumer("ok", "sorted (`%s`, total on the unique key) before any other use" % p["name"], p, chain)
                     return Consumer("unclassified", "`%s` with a key that may tie: ties keep hash order" % p["name"], p, chain)
                 continue
+            # `v.select_nth_unstable(k - 1); v.truncate(k);` under a total order: the *set* of the k best is the same for
+            # every arrival order (their order is not) - fine as long as whatever follows is order-insensitive
+            if p is not None and p.get("k") == "MethodCall" and p["recv"] is v and p["name"] in ("select_nth_unstable", "select_nth_unstable_by", "select_nth_unstable_by_key") and not verdicts and p["args"]:
+                total = p["name"] == "select_nth_unstable" or sort_is_total({"name": "sort_unstable_by" if p["name"].endswith("_by") else "sort_unstable_by_key", "args": p["args"][1:]})
+                if total:
+                    from .facts import Render as _R
+                    selected = _R(fn["crate"]).e(peel_refs(p["args"][0])).replace(" ", "").strip("()")
+                    continue
+                return Consumer("unclassified", "`%s` with a key that may tie" % p["name"], p, chain)
+            if p is not None and p.get("k") == "MethodCall" and p["recv"] is v and p["name"] == "truncate" and selected is not None and p["args"]:
+                from .facts import Render as _R
+                cut = _R(fn["crate"]).e(peel_refs(p["args"][0])).replace(" ", "").strip("()")
+                if selected in (cut + "-1", "(%s-1)" % cut) or cut in (selected + "+1", "(%s+1)" % selected):
+                    continue
+                return Consumer("order", "truncated at `%s` after a selection at `%s`: the kept prefix is not the selected set" % (cut, selected), p, chain)
             verdicts.append(follow_collection(fn, u, pm, chain + "->" + binds[0]["name"]))
     if not verdicts:
         return Consumer("ok", "binding never used", let, chain)
